@@ -1,2 +1,89 @@
-From BFS Require Import Backup.History.
-Example placeholder_C03 : True. Proof. exact I. Qed.
+(** C03 — read-only operations are pure pass-throughs.
+
+    Proved here, for EVERY [base backup : fsapi] and EVERY world (no law about
+    the filesystems assumed), via Proofs/Footprint.v:
+    - [C03_*_delegates]: Lstat, Stat and Readlink are exactly one call of the
+      same method of the base with the unresolved name; Open and OpenFile with
+      flag O_RDONLY (= 0, the model's and the Go source's test is
+      [flag == os.O_RDONLY]) are exactly [base.OpenFile(name, O_RDONLY, 0)].
+      Result and resulting world are those of that single call: BackupFS
+      itself reads and writes nothing else - not the backup filesystem, not
+      [baseInfos] - and does not resolve the path.
+    - [C03_*_restricted]: the same as restriction statements: the operations
+      run identically when every mutating method of the base traps, and (for
+      Open/OpenFile, which are the only ones handed the backup filesystem at
+      all) when EVERY method of the backup traps ([trap_api]).  Because Open
+      is routed through the base's OpenFile method, the base restriction used
+      there is [ro0] (OpenFile allowed with flag 0 only), not [ro].
+    - [C03_infos_unchanged]: hence [w_infos] is unchanged by a read-only
+      operation whenever the base's own four methods do not change it.
+
+    NOT proved here: what the base's Lstat/Stat/Readlink/OpenFile do (an
+    arbitrary [fsapi] may do anything inside its methods); the reads made
+    afterwards on the returned handle ([hread] etc. are global functions on the
+    handle returned by the base, BackupFS does not wrap it). *)
+From stdpp Require Import gmap.
+From BFS Require Import Backup.History Proofs.Footprint.
+
+Theorem C03_lstat_delegates : forall base n w, b_lstat base n w = a_lstat base n w.
+Proof. exact b_lstat_delegates. Qed.
+Print Assumptions C03_lstat_delegates.
+
+Theorem C03_stat_delegates : forall base n w, b_stat base n w = a_stat base n w.
+Proof. exact b_stat_delegates. Qed.
+Print Assumptions C03_stat_delegates.
+
+Theorem C03_readlink_delegates : forall base n w, b_readlink base n w = a_readlink base n w.
+Proof. exact b_readlink_delegates. Qed.
+Print Assumptions C03_readlink_delegates.
+
+Theorem C03_open_delegates : forall base backup n w,
+  b_open base backup n w = a_openfile base n 0 0 w.
+Proof. exact b_open_delegates. Qed.
+Print Assumptions C03_open_delegates.
+
+Theorem C03_openfile_rdonly_delegates : forall base backup n perm w,
+  b_openfile base backup n 0 perm w = a_openfile base n 0 0 w.
+Proof. exact b_openfile_rdonly_delegates. Qed.
+Print Assumptions C03_openfile_rdonly_delegates.
+
+Theorem C03_lstat_restricted : forall base n w, b_lstat (ro base) n w = b_lstat base n w.
+Proof. exact b_lstat_ro. Qed.
+Print Assumptions C03_lstat_restricted.
+
+Theorem C03_stat_restricted : forall base n w, b_stat (ro base) n w = b_stat base n w.
+Proof. exact b_stat_ro. Qed.
+Print Assumptions C03_stat_restricted.
+
+Theorem C03_readlink_restricted : forall base n w, b_readlink (ro base) n w = b_readlink base n w.
+Proof. exact b_readlink_ro. Qed.
+Print Assumptions C03_readlink_restricted.
+
+Theorem C03_open_restricted : forall base backup n w,
+  b_open (ro0 base) trap_api n w = b_open base backup n w.
+Proof. exact b_open_ro. Qed.
+Print Assumptions C03_open_restricted.
+
+Theorem C03_openfile_rdonly_restricted : forall base backup n perm w,
+  b_openfile (ro0 base) trap_api n 0 perm w = b_openfile base backup n 0 perm w.
+Proof. exact b_openfile_rdonly_ro. Qed.
+Print Assumptions C03_openfile_rdonly_restricted.
+
+(** only the one method is used *)
+Theorem C03_open_only_openfile : forall base backup n w,
+  b_open (only_methods (ms_one MOpenFile) base) trap_api n w = b_open base backup n w.
+Proof. exact b_open_only. Qed.
+Print Assumptions C03_open_only_openfile.
+
+Theorem C03_infos_unchanged : forall base backup : fsapi,
+  (forall p w r w', a_lstat base p w = (r, w') -> w_infos w' = w_infos w) ->
+  (forall p w r w', a_stat base p w = (r, w') -> w_infos w' = w_infos w) ->
+  (forall p w r w', a_readlink base p w = (r, w') -> w_infos w' = w_infos w) ->
+  (forall p w r w', a_openfile base p 0 0 w = (r, w') -> w_infos w' = w_infos w) ->
+  (forall n w r w', b_lstat base n w = (r, w') -> w_infos w' = w_infos w) /\
+  (forall n w r w', b_stat base n w = (r, w') -> w_infos w' = w_infos w) /\
+  (forall n w r w', b_readlink base n w = (r, w') -> w_infos w' = w_infos w) /\
+  (forall n w r w', b_open base backup n w = (r, w') -> w_infos w' = w_infos w) /\
+  (forall n perm w r w', b_openfile base backup n 0 perm w = (r, w') -> w_infos w' = w_infos w).
+Proof. exact readonly_infos_unchanged. Qed.
+Print Assumptions C03_infos_unchanged.
